@@ -1,19 +1,121 @@
 package main
 
 import (
+	"flag"
 	"fmt"
-	"golang.org/x/tools/go/packages"
-	"golang.org/x/tools/go/ssa"
-	"golang.org/x/tools/go/ssa/ssautil"
+	"os"
+	"sort"
+	"strings"
+	"time"
 )
 
 func main() {
-	cfg := &packages.Config{Mode: packages.LoadAllSyntax, Dir: "/repo", BuildFlags: []string{"-tags=verif"}}
-	pkgs, err := packages.Load(cfg, "./schema", "./atp")
-	if err != nil {
-		panic(err)
+	if len(os.Args) < 2 {
+		fmt.Fprintln(os.Stderr, "usage: govc <dump|check|...>")
+		os.Exit(2)
 	}
-	prog, spkgs := ssautil.AllPackages(pkgs, ssa.InstantiateGenerics)
-	prog.Build()
-	fmt.Println(len(spkgs))
+	switch os.Args[1] {
+	case "dump":
+		cmdDump(os.Args[2:])
+	case "check":
+		cmdCheck(os.Args[2:])
+	default:
+		fmt.Fprintln(os.Stderr, "unknown command")
+		os.Exit(2)
+	}
 }
+
+func loadDefault(repo string) *Engine {
+	e, err := loadEngine(repo, []string{"./schema", "./atp"}, repo)
+	if err != nil {
+		fmt.Fprintln(os.Stderr, "load:", err)
+		os.Exit(3)
+	}
+	return e
+}
+
+func cmdDump(args []string) {
+	fs := flag.NewFlagSet("dump", flag.ExitOnError)
+	repo := fs.String("repo", "/repo", "repository")
+	sweep := fs.Bool("sweep", false, "safety sweep only")
+	frame := fs.Bool("frame", false, "force frame obligations")
+	keep := fs.String("keep", "", "directory to keep SMT files")
+	timeout := fs.Int("t", 10, "timeout seconds")
+	verbose := fs.Bool("v", false, "print models and notes")
+	mod := fs.String("mod", "", "module dir (default repo)")
+	fs.Parse(args)
+	var e *Engine
+	if *mod != "" {
+		var err error
+		e, err = loadEngine(*repo, []string{"./..."}, *mod)
+		if err != nil {
+			fmt.Fprintln(os.Stderr, err)
+			os.Exit(3)
+		}
+	} else {
+		e = loadDefault(*repo)
+	}
+	dir := *keep
+	if dir == "" {
+		d, _ := os.MkdirTemp("", "govc")
+		dir = d
+		defer os.RemoveAll(d)
+	} else {
+		os.MkdirAll(dir, 0o755)
+	}
+	var units []*Unit
+	for _, pat := range fs.Args() {
+		var keys []string
+		for k := range e.funcs {
+			if k == pat || (strings.HasSuffix(pat, "*") && strings.HasPrefix(k, strings.TrimSuffix(pat, "*"))) {
+				keys = append(keys, k)
+			}
+		}
+		sort.Strings(keys)
+		if len(keys) == 0 {
+			fmt.Println("no function matches", pat)
+		}
+		for _, k := range keys {
+			for _, fn := range e.funcs[k] {
+				u := e.verify(fn, VerifyOpts{SweepOnly: *sweep, Frame: *frame})
+				units = append(units, u)
+			}
+		}
+	}
+	t0 := time.Now()
+	solveAll(units, dir, time.Duration(*timeout)*time.Second, solvers, 16)
+	for _, u := range units {
+		fmt.Printf("== %s  (%d obligations)\n", u.name, len(u.obls))
+		if u.unsup != "" {
+			fmt.Println("   UNSUPPORTED:", u.unsup)
+		}
+		for _, o := range u.obls {
+			fmt.Printf("   %-9s %-7s %5.2fs %s  [%s] %s\n", o.Status, o.Solver, o.Secs, o.Name, o.Pos, o.Note)
+			if *verbose && o.Status != "proved" {
+				var ks []string
+				for k := range o.Model {
+					ks = append(ks, k)
+				}
+				sort.Strings(ks)
+				for _, k := range ks {
+					fmt.Printf("        %s = %s\n", k, o.Model[k])
+				}
+				if o.Status == "unknown" {
+					fmt.Println("        ", trunc(o.Raw, 400))
+				}
+			}
+		}
+		if *verbose {
+			var ns []string
+			for n := range u.notes {
+				ns = append(ns, n)
+			}
+			sort.Strings(ns)
+			for _, n := range ns {
+				fmt.Println("   note:", n)
+			}
+		}
+	}
+	fmt.Printf("solve time %.1fs\n", time.Since(t0).Seconds())
+}
+
